@@ -506,8 +506,44 @@ func (w *Writer) scannerFrom(pos int64, canObjStm bool) (*scanner, error) {
 	return s, nil
 }
 
+// checkDirect reports an error if obj cannot be written as a direct object.
+// This is the case if obj contains a stream: streams can only be written as
+// indirect objects.
+func checkDirect(obj Object, opt OutputOptions) error {
+	if obj == nil {
+		return nil
+	}
+	switch x := obj.AsPDF(opt).(type) {
+	case *Stream:
+		return errors.New("direct stream objects are not allowed")
+	case Array:
+		for _, elem := range x {
+			if err := checkDirect(elem, opt); err != nil {
+				return err
+			}
+		}
+	case Dict:
+		for _, val := range x {
+			if err := checkDirect(val, opt); err != nil {
+				return err
+			}
+		}
+	}
+	return nil
+}
+
 // Put writes an indirect object to the PDF file, using the given reference.
 func (w *Writer) Put(ref Reference, obj Object) error {
+	// A value which cannot be written is refused before anything is recorded
+	// or written (the bytes of a half-written object cannot be taken back).
+	if stm, isStream := obj.(*Stream); isStream {
+		if err := checkDirect(stm.Dict, w.outputOptions); err != nil {
+			return fmt.Errorf("Writer.Put: %w", err)
+		}
+	} else if err := checkDirect(obj, w.outputOptions); err != nil {
+		return fmt.Errorf("Writer.Put: %w", err)
+	}
+
 	if w.inStream {
 		w.afterStream = append(w.afterStream, allocatedObject{ref, obj})
 		return nil
@@ -722,6 +758,9 @@ func checkCompressed(refs []Reference, objects []Object) error {
 func (w *Writer) OpenStream(ref Reference, dict Dict, filters ...Filter) (io.WriteCloser, error) {
 	if w.inStream {
 		return nil, errors.New("OpenStream() while stream is open")
+	}
+	if err := checkDirect(dict, w.outputOptions); err != nil {
+		return nil, fmt.Errorf("OpenStream: %w", err)
 	}
 
 	// Per PDF spec §7.4.10, a Crypt filter must be the first entry in
